@@ -17,8 +17,9 @@ Parts
       are non-zero for EVERY seed, both widths
   §4  determinism: every observation of a generator object is a function of the seed
   §5  `uniform`: exact rational value and range [0,1)
-  §6  a part of the statement that is FALSE of the code as written: `FloatRandomT<4>/IntRandomT<4>
-      ::uint64()` (hence `float64()`) depend on the compiler's argument evaluation order
+  §6  `FloatRandomT<4>/IntRandomT<4>::uint64()` (hence `float64()`): the two 32-bit draws are combined in
+      the order the source defines (first draw = high half) — full statement, after the repair of the
+      compiler-dependent `widen(uint32(), uint32())`
 
 TRUSTED (not proved in Lean), see also DESIGN §11:
   * IEEE-754: for a binary32/binary64 number `a ∈ [1,2)` the machine subtraction `a − 1.0` is exact
@@ -211,13 +212,15 @@ theorem xoshiro128starstar_jump_matches : jump (w := 32) i4 = Ref.xoshiro128jump
   rfl
 
 /-- Remaining source-derived facts the model uses, pinned to the values the argument relies on:
-`uniform`'s constants, `widen`'s shift, seeding order and default seed. -/
+`uniform`'s constants, `widen`'s shift, seeding order and default seed, and the argument of `widen`
+that receives the first draw in `uint64()` of the 4-byte variants. -/
 theorem facts_misc :
     Rng.uni32Exp = 0x7F ∧ Rng.uni32ExpShift = 23 ∧ Rng.uni32Shift = 9 ∧
     Rng.uni64Exp = 0x3FF ∧ Rng.uni64ExpShift = 52 ∧ Rng.uni64Shift = 12 ∧
     Rng.widenShift = 32 ∧
     Rng.base8SeedOrder = [0, 1, 2, 3] ∧ Rng.base4SeedOrder = [0, 1, 2, 3] ∧
-    Rng.base8DefaultSeed = 0 ∧ Rng.base4DefaultSeed = 0 ∧ Rng.wrappersRecognised = 1 := by
+    Rng.base8DefaultSeed = 0 ∧ Rng.base4DefaultSeed = 0 ∧ Rng.wrappersRecognised = 1 ∧
+    Rng.f4WidenFirstDrawArg = 0 ∧ Rng.i4WidenFirstDrawArg = 0 := by
   decide
 
 /-- **facts_match_reference.**  Every generator of the model, built from the constants of the
@@ -362,18 +365,25 @@ theorem seeded_observation_determined32 {α : Type} (obs : S4 32 → α) (sd : B
   exact (Option.some.inj hb).symm
 
 /-- Instances: the `uint64()` stream of `FloatRandomT<8>`, the `float32()` stream (as bit patterns) of
-`FloatRandomT<4>` after one `jump()`, the `uint32()` stream of `IntRandomT<8>` — each is determined by
-the seed, for every length. -/
+`FloatRandomT<4>` after one `jump()`, the `uint32()` stream of `IntRandomT<8>`, the `uint64()` stream of
+`IntRandomT<4>` and the `float64()` stream of `FloatRandomT<4>` (both built from two 32-bit draws in
+the source-defined order) — each is determined by the seed, for every length. -/
 theorem output_streams_determined_by_seed (n : Nat) :
     (∀ sd, ∃ l, (seed64 sd).map (stream (next f8) n) = some l ∧
         ∀ l', (seed64 sd).map (stream (next f8) n) = some l' → l' = l) ∧
     (∀ sd, ∃ l, (seed32 sd).map (fun s => stream (float32of32 f4) n (jump f4 s)) = some l ∧
         ∀ l', (seed32 sd).map (fun s => stream (float32of32 f4) n (jump f4 s)) = some l' → l' = l) ∧
     (∀ sd, ∃ l, (seed64 sd).map (stream (next32of64 i8) n) = some l ∧
-        ∀ l', (seed64 sd).map (stream (next32of64 i8) n) = some l' → l' = l) :=
+        ∀ l', (seed64 sd).map (stream (next32of64 i8) n) = some l' → l' = l) ∧
+    (∀ sd, ∃ l, (seed32 sd).map (stream i4next64 n) = some l ∧
+        ∀ l', (seed32 sd).map (stream i4next64 n) = some l' → l' = l) ∧
+    (∀ sd, ∃ l, (seed32 sd).map (stream f4float64 n) = some l ∧
+        ∀ l', (seed32 sd).map (stream f4float64 n) = some l' → l' = l) :=
   ⟨fun sd => seeded_observation_determined64 _ sd,
    fun sd => seeded_observation_determined32 _ sd,
-   fun sd => seeded_observation_determined64 _ sd⟩
+   fun sd => seeded_observation_determined64 _ sd,
+   fun sd => seeded_observation_determined32 _ sd,
+   fun sd => seeded_observation_determined32 _ sd⟩
 
 /-- Two objects in the same state stay in lock step: the stream splits at any point into a prefix
 and the stream of the state reached (so "position `k` of the stream" is well defined). -/
@@ -421,7 +431,7 @@ theorem uniform64_bits_value (x : BitVec 64) : f64Value (uniformBits64 x) = unif
 
 /-- Every `float32()` / `float64()` result of every bundled generator, from every state, denotes a
 number in [0,1): they are all `uniform` of an integer draw. -/
-theorem float_outputs_in_unit_interval (p : XoParams) (o : ArgOrder) :
+theorem float_outputs_in_unit_interval (p : XoParams) (o : Nat) :
     (∀ s : S4 64, 0 ≤ f32Value (float32of64 p s).1 ∧ f32Value (float32of64 p s).1 < 1) ∧
     (∀ s : S4 64, 0 ≤ f64Value (float64of64 p s).1 ∧ f64Value (float64of64 p s).1 < 1) ∧
     (∀ s : S4 32, 0 ≤ f32Value (float32of32 p s).1 ∧ f32Value (float32of32 p s).1 < 1) ∧
@@ -438,37 +448,58 @@ theorem uniform32_extremes :
     uniformBits64 0#64 = 0#64 ∧ uniformBits64 0xFFFFFFFFFFFFFFFF#64 = 0x3FEFFFFFFFFFFFFE#64 := by
   decide
 
-/-! ## §6 What is false of the code as written: `widen(uint32(), uint32())`
+/-! ## §6 `uint64()` / `float64()` of the 4-byte variants: defined order of the two draws
 
-FULL STATEMENT (false): "the value of `FloatRandomT<4>::uint64()` / `IntRandomT<4>::uint64()` (and so
-`float64()`) is a function of the object's state" — i.e. the same on every compiler for the same
-pointer width.  The source is `return widen(uint32(), uint32());`: the two calls are unsequenced
-relative to each other (indeterminately sequenced, all C++ versions), g++ 12 evaluates the right
-argument first, clang 14 the left one (measured, -O0…-O3).  The model therefore carries the order as
-a parameter; with the order fixed everything is a function of the state (`_partial`); the two orders
-give different results on a concrete seeded state (`widen_order_observable`).  `uint32()`,
-`float32()`, `next()` and `jump()` — everything the machine itself uses — do not depend on it. -/
+Current source (random.hpp): `{ const uint32_t x = uint32(); const uint32_t y = uint32(); return widen(x, y); }`.
+The two draws are separate, sequenced declarations, so which draw becomes which half is fixed by the
+language; the extractor reads it out of the source (`f4/i4WidenFirstDrawArg`, pinned to 0 in
+`facts_misc`) and refuses any shape whose evaluation order is not defined.  The harness still measures
+the order the binary exhibits; the driver reports a divergence if it differs from the source fact.
 
-/-- Partial: once the evaluation order is fixed, `uint64()` of the 4-byte variants is a function of
-state; and the state left behind does not depend on the order at all. -/
-theorem next64of32_determined_partial (o₁ o₂ : ArgOrder) (p : XoParams) (s : S4 32)
-    (ho : o₁ = o₂) :
-    next64of32 o₁ p s = next64of32 o₂ p s ∧
-    ∀ o o' : ArgOrder, (next64of32 o p s).2 = (next64of32 o' p s).2 := by
-  subst ho
-  refine ⟨rfl, ?_⟩
-  intro o o'
-  cases o <;> cases o' <;> rfl
+Historical remark.  Before the repair ("fix: draw the two halves of the 32-bit generators' uint64() in a
+defined order") the body was `return widen(uint32(), uint32());`: the two calls are indeterminately
+sequenced, g++ 12 drew the right argument first and clang 14 the left one (measured, -O0…-O3), so the
+value depended on the compiler.  This file then carried the order as a measured parameter, a
+`next64of32_determined_partial` theorem and the witness that is kept below as
+`widen_order_would_matter` (it shows the order fact is not idle: swapping it changes the value). -/
 
-example : ArgOrder.rightFirst = ArgOrder.rightFirst := rfl
+/-- The source passes the FIRST draw to `widen`'s first argument, in both 4-byte generators.
+(Closed terms: a swapped `widen(y, x)` fails here at once.) -/
+theorem params_widen_order : Rng.f4WidenFirstDrawArg = 0 ∧ Rng.i4WidenFirstDrawArg = 0 := ⟨rfl, rfl⟩
 
-/-- Negation of the full statement on a concrete witness: `IntRandomT<4>` seeded with 12345 (the
-harness' probe) returns different `uint64()` values under the two evaluation orders — the two
-halves are swapped. -/
-theorem widen_order_observable :
+/-- **Full statement** (replaces the former `_partial`): `uint64()` of `FloatRandomT<4>` and
+`IntRandomT<4>` is a function of the object's state alone — the first `uint32()` draw is the high
+half, the second the low half, and the state left behind is the state after two draws. -/
+theorem uint64of32_first_draw_high :
+    (∀ s, f4next64 s = (widen (next f4 s).1 (next f4 (next f4 s).2).1, (next f4 (next f4 s).2).2)) ∧
+    (∀ s, i4next64 s = (widen (next i4 s).1 (next i4 (next i4 s).2).1, (next i4 (next i4 s).2).2)) := by
+  constructor
+  · intro s; unfold f4next64 next64of32; rw [params_widen_order.1]; rfl
+  · intro s; unfold i4next64 next64of32; rw [params_widen_order.2]; rfl
+
+/-- `widen` puts its first argument in bits 63…32 and its second in bits 31…0. -/
+theorem widen_halves (x y : BitVec 32) :
+    (widen x y).toNat = x.toNat * 2 ^ 32 + y.toNat := by
+  have hx : x.toNat < 2 ^ 32 := x.isLt
+  have hy : y.toNat < 2 ^ 32 := y.isLt
+  simp only [widen, Rng.widenShift, BitVec.toNat_or, BitVec.toNat_shiftLeft, BitVec.truncate_eq_setWidth,
+    BitVec.toNat_setWidth]
+  rw [Nat.mod_eq_of_lt (by omega : x.toNat < 2 ^ 64), Nat.mod_eq_of_lt (by omega : y.toNat < 2 ^ 64),
+    Nat.shiftLeft_eq, Nat.mod_eq_of_lt (by omega : x.toNat * 2 ^ 32 < 2 ^ 64)]
+  rw [← Nat.shiftLeft_eq, ← Nat.shiftLeft_add_eq_or_of_lt hy]
+
+/-- The state left behind by `uint64()` does not depend on which half is which. -/
+theorem next64of32_state (o o' : Nat) (p : XoParams) (s : S4 32) :
+    (next64of32 o p s).2 = (next64of32 o' p s).2 := by
+  unfold next64of32
+  split <;> split <;> rfl
+
+/-- Why the order fact matters (the pre-repair witness): on the state seeded with 12345 the two
+possible orders give different `uint64()` values for both 4-byte generators. -/
+theorem widen_order_would_matter :
     ∃ s, seed32 12345#32 = some s ∧
-      (next64of32 .leftFirst i4 s).1 ≠ (next64of32 .rightFirst i4 s).1 ∧
-      (next64of32 .leftFirst f4 s).1 ≠ (next64of32 .rightFirst f4 s).1 := by
+      (next64of32 0 i4 s).1 ≠ (next64of32 1 i4 s).1 ∧
+      (next64of32 0 f4 s).1 ≠ (next64of32 1 f4 s).1 := by
   decide
 
 /-
@@ -489,7 +520,9 @@ Theorems that constitute property C20
   output_streams_determined_by_seed stream_append
   uniform32_exact uniform64_exact uniform32_range uniform64_range
   uniform32_bits_value uniform64_bits_value float_outputs_in_unit_interval uniform32_extremes
-  next64of32_determined_partial widen_order_observable     (the part that is false as written)
+  params_widen_order uint64of32_first_draw_high widen_halves next64of32_state
+                                                             (4-byte uint64()/float64(): defined order)
+  widen_order_would_matter                                   (remark: the order fact is not idle)
 -/
 
 end Hfsm.Props.C20
